@@ -17,6 +17,7 @@ u8 _ZN8Pistache13match_literalEcRNS_12StreamCursorENS_15CaseSensitivityE(u8, u8*
 u8 _ZN8Pistache11match_untilESt16initializer_listIcERNS_12StreamCursorENS_15CaseSensitivityE(u8*, u64, u8*, u32);
 u8 _ZN8Pistache12match_doubleEPdRNS_12StreamCursorE(u8*, u8*);
 void _ZN8Pistache16skip_whitespacesERNS_12StreamCursorE(u8*);
+void _ZN8Pistache12StreamCursor5resetEv(u8*);
 #ifndef N
 #define N 6
 #endif
@@ -60,6 +61,10 @@ int main(void) {
   { u8 cu = _ZNK8Pistache12StreamCursor7currentEv((u8*)&c); VP_OBS("cu", cu); __CPROVER_assert(cu == (avail > 0 ? b[pos] : (u8)0xff), "current() is the byte at the cursor, or (char)EOF when nothing is available"); }
   __CPROVER_assert(_ZNK8Pistache12StreamCursor6offsetEv((u8*)&c) == b + pos && _ZNK8Pistache12StreamCursor6offsetEm((u8*)&c, pos) == b + pos && _ZNK8Pistache12StreamCursor4diffEm((u8*)&c, 0) == pos, "offset()/offset(n)/diff(n) are plain pointer arithmetic on the get area");
   INVARIANT();
+#elif defined(H_RESET)
+  _ZN8Pistache12StreamCursor5resetEv((u8*)&c);
+  VP_OBS("z", sb.eback == 0);
+  __CPROVER_assert(sb.eback == 0 && sb.gptr == 0 && sb.egptr == 0, "StreamCursor::reset() empties the get area");
 #elif defined(H_RAW) || defined(H_STRING)
   VP_IN(u64, m, "m"); __CPROVER_assume(m <= 4);
   u8 pat[5]; for (int i = 0; i < 4; i++) { VP_SET(u8, pat[i], "pat"); } pat[4] = 0;
